@@ -374,6 +374,10 @@ def check_case(case, counters, sets):
             nums = [n_ for n_ in nums if n_ >= 0]
     else:
         nums = [int(os.path.basename(x).split('.')[0]) if kind == 'filenames' else int(x) for x in delivered]
+    if kind == 'from_iterable' and nums != list(range(len(nums))) and not any(b <= a for a, b in zip(nums, nums[1:])):
+        # an iterator hands out each item once: an item the source has taken from it and not delivered is lost for good
+        add('C18:item-taken-from-the-iterator-but-never-emitted@from_iterable', 'iterator over %d items, delivered positions %s'
+            % (case['n_items'], nums[:30]))
     if kind != 'from_iterable_list' and any(b <= a for a, b in zip(nums, nums[1:])):
         add('C18:duplicate-or-out-of-order@%s' % kind, 'delivered %s' % nums[:40])
     if kind == 'from_iterable_list' or (kind == 'from_iterable' and not any(op in ('stop', 'stopstart') for _, op in case['ops'])):
